@@ -74,6 +74,10 @@ class C08Run(object):
                    'warmup_delay': int(o.get('warmup_delay', 0))}
             if o.get('singleton'):
                 ent['singleton'] = True
+            if o.get('autostart', True) is False:
+                ent['autostart'] = False
+            if 'priority' in o:
+                ent['priority'] = o['priority']
             if socks and wc.get('use_sockets'):
                 ent['use_sockets'] = True
             if socks and wc.get('on_demand'):
@@ -164,6 +168,8 @@ class C08Run(object):
                 if tag in ('death', 'self_exit'):
                     self.count(self.fired, 'env_' + tag, n)
             self.digest = w.digest()
+            self.spawn_log = [(p.marker, p.spawn_time - EPOCH)
+                              for p in w.kernel.spawns]
             self.leftover_sockets()
             w.close()
         return self
